@@ -356,9 +356,11 @@ class IndexedGrammar:
             When trying to intersection with something else than a regular
             expression or a finite automaton
         """
-        if isinstance(other, pyformlang.regular_expression.Regex):
+        # pylint: disable=import-outside-toplevel
+        from pyformlang import regular_expression, finite_automaton
+        if isinstance(other, regular_expression.Regex):
             other = other.to_epsilon_nfa()
-        if isinstance(other, pyformlang.finite_automaton.FiniteAutomaton):
+        if isinstance(other, finite_automaton.FiniteAutomaton):
             fst = other.to_fst()
             return fst.intersection(self)
         raise NotImplementedError
